@@ -37,8 +37,8 @@ def alloc_loop_spec(E, Mx, cur0, has0):
         s = ctx.self
         k = I(ctx.k)
         cur = I(s.attrs['_current_stream_id'])
-        att = I(ctx['attempt_counter'])
-        found = B(ctx['available_stream_id_found'])
+        att = I(ctx.local('attempt_counter', ('aug', 1)))
+        found = B(ctx.local('available_stream_id_found', ('while_names',)))
         i = z3.Int('inv.i')
         tried = z3.ForAll([i], z3.Implies(z3.And(i >= 1, i <= k - z3.If(found, 1, 0)),
                                           unavailable(has0, (I(cur0) + 2 * i) % mod)))
@@ -52,7 +52,7 @@ def alloc_loop_spec(E, Mx, cur0, has0):
         ]
 
     def variant(ctx):
-        found = B(ctx['available_stream_id_found'])
+        found = B(ctx.local('available_stream_id_found', ('while_names',)))
         return Mx + 3 - 2 * I(ctx.k) - z3.If(found, 1, 0)
     return LoopSpec(inv, variant)
 
@@ -79,7 +79,7 @@ def _alloc(Mx):
             j = ((I(x) - I(cur0)) % mod) / 2
             w = z3.If(j == 0, mod / 2, j)
             i = z3.Int('inv.i')
-            found = B(ctx['available_stream_id_found'])
+            found = B(ctx.local('available_stream_id_found', ('while_names',)))
             tried = z3.ForAll([i], z3.Implies(z3.And(i >= 1, i <= k - z3.If(found, 1, 0)),
                                               unavailable(has0, (I(cur0) + 2 * i) % mod)))
             E.path.add(instantiate_forall(tried, w))       # consequence of the (assumed) loop invariant
